@@ -25,6 +25,12 @@ type Step struct {
 	Last   isaac.LastPoint
 	Expels []base.SuffrageExpelOperation
 	Height base.Height
+	// VPHostile: how the voteproof the ballot carries was built: "" or "maxth" =
+	// the honest one; otherwise "<kind>" or "<kind>@<id source>" (see Gen.replayID)
+	VPHostile string
+	// ExResigned: the ballot's expel operations carry the facts of another spec
+	// under other node signs (ExpelSpec.FactOf)
+	ExResigned bool
 }
 
 // ScriptOpts shapes a generated script.
@@ -42,6 +48,15 @@ type ScriptOpts struct {
 	SufChange float64 // probability per height that the suffrage changes (a join or a leave)
 	Stale     bool    // late ballots and sign facts for stage points the script went through long ago (one, two and more stages back)
 	PermHide  float64 // probability per height that the suffrage of the previous voteproofs' height is hidden (revealed late or never)
+	// Replay: probability that a hostile embedded voteproof carries the ID of
+	// another (honest) voteproof of the script instead of a fresh one; also
+	// enables ballots of genuine members for stage points ahead of the current
+	// one carrying such voteproofs. 0 = every voteproof has its own ID.
+	Replay float64
+	// Skip: probability that the box misses a whole stage (none of its ballots
+	// is delivered): it learns the result only from the voteproof the next
+	// stage's ballots carry.
+	Skip float64
 }
 
 // Gen builds a script. Every ballot in it passed IsValid(networkID); ballots
@@ -57,10 +72,18 @@ type Gen struct {
 	acceptRound map[base.Height]base.Round
 	past        []stageCtx  // every stage the flow went through, oldest first
 	hiddenFor   base.Height // ballots of this height are held now (their suffrage is hidden, revealed later); 0 = none
+	// IDs of the honest voteproofs carried by the steps added so far, oldest first
+	honestIDs []string
+	honestSet map[string]bool
+	// Replays counts the added ballots that replay an identifier with other
+	// content: "voteproof-id:<id source>", "voteproof-id:<kind>@<id source>",
+	// "expel-facts-under-other-node-signs"; Skipped counts the missed stages
+	Replays map[string]int
+	Skipped int
 }
 
 func NewGen(w *World, rng *rand.Rand, o ScriptOpts) *Gen {
-	return &Gen{W: w, R: rng, O: o, acceptRound: map[base.Height]base.Round{}}
+	return &Gen{W: w, R: rng, O: o, acceptRound: map[base.Height]base.Round{}, honestSet: map[string]bool{}, Replays: map[string]int{}}
 }
 
 func (g *Gen) add(st Step) {
@@ -72,6 +95,21 @@ func (g *Gen) add(st Step) {
 		st.SP = st.Ballot.Point()
 		st.IsSC = isaac.IsSuffrageConfirmBallotFact(st.Ballot.SignFact().Fact())
 		st.Node = st.Ballot.SignFact().Node().String()
+		if st.ExResigned {
+			g.Replays["expel-facts-under-other-node-signs"]++
+		}
+		if vp := st.Ballot.Voteproof(); vp != nil {
+			switch kind, src := splitHostile(st.VPHostile); {
+			case src != "":
+				g.Replays["voteproof-id:"+src]++
+				g.Replays["voteproof-id:"+kind+"@"+src]++
+			case kind == "" || kind == "maxth":
+				if id := vp.ID(); !g.honestSet[id] {
+					g.honestSet[id] = true
+					g.honestIDs = append(g.honestIDs, id)
+				}
+			}
+		}
 	}
 	if st.SignFact != nil && st.Ballot == nil {
 		if err := st.SignFact.IsValid(g.W.NetworkID); err != nil {
@@ -169,6 +207,26 @@ func (g *Gen) hostileExpel(h base.Height) (*ExpelSpec, string) {
 	}
 }
 
+// resigned is ex with the same expel facts under other node signs: "outsider"
+// adds the sign of a node outside the suffrage, "under" keeps one sign only.
+func (g *Gen) resigned(ex *ExpelSpec, mode string) *ExpelSpec {
+	e := *ex
+	if e.FactOf == "" {
+		e.FactOf = ex.ID
+	}
+	g.exSeq++
+	e.ID = fmt.Sprintf("%s-resigned%d-%s", ex.ID, g.exSeq, mode)
+	switch mode {
+	case "outsider":
+		e.OutsiderSigns = true
+	case "under":
+		if len(e.Signers) > 1 {
+			e.Signers = append([]int{}, e.Signers[:1]...)
+		}
+	}
+	return &e
+}
+
 func (g *Gen) expelIsClean(ex *ExpelSpec, h base.Height) bool {
 	if ex == nil {
 		return true
@@ -186,8 +244,81 @@ func (g *Gen) expelIsClean(ex *ExpelSpec, h base.Height) bool {
 
 // ---- embedded voteproofs
 
-// prevVP is the voteproof an INIT ballot of point p carries.
-func (g *Gen) prevVP(p base.Point, hostile string) base.Voteproof {
+// splitHostile splits "<kind>@<id source>".
+func splitHostile(h string) (kind, src string) {
+	for i := 0; i < len(h); i++ {
+		if h[i] == '@' {
+			return h[:i], h[i+1:]
+		}
+	}
+	return h, ""
+}
+
+// replayID resolves the ID a hostile embedded voteproof replays. Voteproof IDs
+// are free strings: whoever builds a voteproof can give it the ID of any
+// voteproof it has seen. Sources:
+//
+//	seen : an honest voteproof carried by an earlier step of the script, of
+//	       whatever stage point (the box has usually validated, often emitted it)
+//	same : the honest voteproof for the very same stage point (the hostile one
+//	       arrives before, among or after the ballots which carry the honest one)
+//	later: the honest voteproof of the ballot's own stage point, which only
+//	       the next stage's ballots will carry (the hostile one comes first and is
+//	       for another stage point)
+func (g *Gen) replayID(src string, same, later func() base.Voteproof) string {
+	switch src {
+	case "seen":
+		switch n := len(g.honestIDs); {
+		case n < 1:
+			return same().ID()
+		case g.R.Intn(2) == 0:
+			return g.honestIDs[n-1]
+		default:
+			return g.honestIDs[g.R.Intn(n)]
+		}
+	case "same":
+		return same().ID()
+	case "later":
+		return later().ID()
+	default:
+		return ""
+	}
+}
+
+// honestACCEPT is the honest ACCEPT voteproof of p: what the INIT ballots of
+// the next height carry when p's round is the one that decided the height.
+func (g *Gen) honestACCEPT(p base.Point) base.Voteproof {
+	w := g.W
+	return w.Voteproof(VPSpec{Stage: base.StageACCEPT, Point: p, Variant: "A", Signers: w.MembersAt(p.Height() - 1), Threshold: w.Threshold})
+}
+
+var replaySources = []string{"seen", "seen", "same", "later"}
+
+// withReplay turns a hostile kind into "<kind>@<id source>" with probability Replay.
+func (g *Gen) withReplay(kind string) string {
+	if g.O.Replay <= 0 || kind == "" || kind == "maxth" || g.R.Float64() >= g.O.Replay {
+		return kind
+	}
+	return kind + "@" + replaySources[g.R.Intn(len(replaySources))]
+}
+
+var hostileKinds = []string{"few", "outsider", "imposter", "lowth", "otherheight", "nextsuf"}
+
+// hostileKind draws the kind of a hostile embedded voteproof; scripts with ID
+// replay also get voteproofs signed by nodes outside the suffrage only.
+func (g *Gen) hostileKind(base []string) string {
+	if g.O.Replay > 0 {
+		if k := g.R.Intn(len(base) + 2); k < len(base) {
+			return base[k]
+		}
+		return "alloutsiders"
+	}
+	return base[g.R.Intn(len(base))]
+}
+
+// prevVP is the voteproof an INIT ballot of point p carries. id != "" replaces
+// the voteproof's own ID.
+func (g *Gen) prevVP(p base.Point, hostile, id string) base.Voteproof {
 	w := g.W
 	// the point of the carried voteproof and the suffrage that decided it
 	vpHeight := p.Height()
@@ -212,6 +343,8 @@ func (g *Gen) prevVP(p base.Point, hostile string) base.Voteproof {
 		th = base.Threshold(51)
 	case "maxth":
 		th = base.MaxThreshold
+	case "alloutsiders":
+		signers = append([]base.LocalNode{}, w.Outsiders...)
 	}
 	if p.Round() == 0 {
 		r := g.acceptRound[p.Height()-1]
@@ -223,9 +356,9 @@ func (g *Gen) prevVP(p base.Point, hostile string) base.Voteproof {
 			if hostile == "otherheight" {
 				signers = w.MembersAt(p.Height() - 4) // the suffrage that decided height h-3
 			}
-			return w.voteproofACCEPTWithBlock(base.NewPoint(p.Height()-3, 0), bh, signers, th)
+			return w.voteproofACCEPTWithBlock(base.NewPoint(p.Height()-3, 0), bh, signers, th, id)
 		}
-		return w.Voteproof(VPSpec{Stage: base.StageACCEPT, Point: pp, Variant: "A", Signers: signers, Threshold: th, Tag: hostile})
+		return w.Voteproof(VPSpec{Stage: base.StageACCEPT, Point: pp, Variant: "A", Signers: signers, Threshold: th, Tag: hostile, ID: id})
 	}
 	// round > 0: a draw of the previous round, INIT or ACCEPT
 	pp := p.PrevRound()
@@ -233,11 +366,11 @@ func (g *Gen) prevVP(p base.Point, hostile string) base.Voteproof {
 	if g.R.Intn(2) == 0 {
 		stage = base.StageACCEPT
 	}
-	return w.Voteproof(VPSpec{Stage: stage, Point: pp, Variant: "", Signers: signers, Threshold: th, Tag: hostile})
+	return w.Voteproof(VPSpec{Stage: stage, Point: pp, Variant: "", Signers: signers, Threshold: th, Tag: hostile, ID: id})
 }
 
-func (w *World) voteproofACCEPTWithBlock(p base.Point, blockOf base.Height, signers []base.LocalNode, th base.Threshold) base.Voteproof {
-	k := fmt.Sprintf("acceptblk/%s/%d/%s/", p, blockOf, th)
+func (w *World) voteproofACCEPTWithBlock(p base.Point, blockOf base.Height, signers []base.LocalNode, th base.Threshold, id string) base.Voteproof {
+	k := fmt.Sprintf("acceptblk/%s/%d/%s/id=%s/", p, blockOf, th, id)
 	for _, n := range signers {
 		k += nodeTag(n) + ","
 	}
@@ -255,6 +388,9 @@ func (w *World) voteproofACCEPTWithBlock(p base.Point, blockOf base.Height, sign
 	a := isaac.NewACCEPTVoteproof(p)
 	a.SetSignFacts(sfs).SetThreshold(th).SetMajority(f)
 	a.Finish()
+	if id != "" {
+		a.SetID(id)
+	}
 	w.cacheMu.Lock()
 	defer w.cacheMu.Unlock()
 	if v, ok := w.vpCache[k]; ok {
@@ -266,7 +402,7 @@ func (w *World) voteproofACCEPTWithBlock(p base.Point, blockOf base.Height, sign
 
 // initVP is the INIT voteproof (majority `variant`) ACCEPT and suffrage
 // confirm ballots of point p carry.
-func (g *Gen) initVP(p base.Point, variant string, ex *ExpelSpec, hostile string) base.Voteproof {
+func (g *Gen) initVP(p base.Point, variant string, ex *ExpelSpec, hostile, id string) base.Voteproof {
 	w := g.W
 	signers := w.MembersExceptAt(p.Height()-1, ex)
 	th := w.Threshold
@@ -281,8 +417,10 @@ func (g *Gen) initVP(p base.Point, variant string, ex *ExpelSpec, hostile string
 		th = base.Threshold(51)
 	case "maxth":
 		th = base.MaxThreshold
+	case "alloutsiders":
+		signers = append([]base.LocalNode{}, w.Outsiders...)
 	}
-	return w.Voteproof(VPSpec{Stage: base.StageINIT, Point: p, Variant: variant, Ex: ex, Signers: signers, Threshold: th, Tag: hostile})
+	return w.Voteproof(VPSpec{Stage: base.StageINIT, Point: p, Variant: variant, Ex: ex, Signers: signers, Threshold: th, Tag: hostile, ID: id})
 }
 
 func (g *Gen) pickHostileVP() string {
@@ -293,7 +431,7 @@ func (g *Gen) pickHostileVP() string {
 		}
 		return ""
 	}
-	return []string{"few", "outsider", "imposter", "lowth", "otherheight", "nextsuf", "nextsuf"}[g.R.Intn(7)]
+	return g.withReplay(g.hostileKind([]string{"few", "outsider", "imposter", "lowth", "otherheight", "nextsuf", "nextsuf"}))
 }
 
 // ---- ballots
@@ -314,9 +452,13 @@ func (g *Gen) initBallot(n base.LocalNode, p base.Point, variant string, ex *Exp
 		kind = "init-expel"
 	}
 	sf := w.SignINIT(n, fact)
-	bl := isaac.NewINITBallot(g.prevVP(p, vpHostile), sf, w.Expels(ex))
+	vpKind, src := splitHostile(vpHostile)
+	id := g.replayID(src,
+		func() base.Voteproof { return g.prevVP(p, "", "") },
+		func() base.Voteproof { return g.initVP(p, variant, ex, "", "") })
+	bl := isaac.NewINITBallot(g.prevVP(p, vpKind, id), sf, w.Expels(ex))
 	return Step{
-		Op: "vote", Kind: kind, Ballot: bl, Clean: clean && g.expelIsClean(ex, p.Height()),
+		Op: "vote", Kind: kind, Ballot: bl, Clean: clean && g.expelIsClean(ex, p.Height()), VPHostile: vpHostile, ExResigned: ex != nil && ex.FactOf != "",
 		Desc: fmt.Sprintf("vote %s %s by %s variant=%s ex=%s vp=%q %s", kind, base.NewStagePoint(p, base.StageINIT), n.Address(), variant, exID(ex), vpHostile, note),
 	}
 }
@@ -325,9 +467,13 @@ func (g *Gen) scBallot(n base.LocalNode, p base.Point, variant string, ex *Expel
 	w := g.W
 	fact := w.SCFact(p, variant, ex)
 	sf := w.SignINIT(n, fact)
-	bl := isaac.NewINITBallot(g.initVP(p, variant, ex, vpHostile), sf, nil)
+	vpKind, src := splitHostile(vpHostile)
+	id := g.replayID(src,
+		func() base.Voteproof { return g.initVP(p, variant, ex, "", "") },
+		func() base.Voteproof { return g.honestACCEPT(p) })
+	bl := isaac.NewINITBallot(g.initVP(p, variant, ex, vpKind, id), sf, nil)
 	return Step{
-		Op: "vote", Kind: "sc", Ballot: bl, Clean: clean && g.expelIsClean(ex, p.Height()),
+		Op: "vote", Kind: "sc", Ballot: bl, Clean: clean && g.expelIsClean(ex, p.Height()), VPHostile: vpHostile,
 		Desc: fmt.Sprintf("vote sc %s by %s variant=%s ex=%s vp=%q %s", base.NewStagePoint(p, base.StageINIT), n.Address(), variant, exID(ex), vpHostile, note),
 	}
 }
@@ -340,10 +486,14 @@ func (g *Gen) acceptBallot(n base.LocalNode, p base.Point, variant string, ex *E
 	if ex != nil {
 		kind = "accept-expel"
 	}
-	ivp := g.initVP(p, variant, ex, vpHostile).(base.INITVoteproof)
+	vpKind, src := splitHostile(vpHostile)
+	id := g.replayID(src,
+		func() base.Voteproof { return g.initVP(p, variant, ex, "", "") },
+		func() base.Voteproof { return g.honestACCEPT(p) })
+	ivp := g.initVP(p, variant, ex, vpKind, id).(base.INITVoteproof)
 	bl := isaac.NewACCEPTBallot(ivp, sf, w.Expels(ex))
 	return Step{
-		Op: "vote", Kind: kind, Ballot: bl, Clean: clean && g.expelIsClean(ex, p.Height()),
+		Op: "vote", Kind: kind, Ballot: bl, Clean: clean && g.expelIsClean(ex, p.Height()), VPHostile: vpHostile, ExResigned: ex != nil && ex.FactOf != "",
 		Desc: fmt.Sprintf("vote %s %s by %s variant=%s ex=%s vp=%q %s", kind, base.NewStagePoint(p, base.StageACCEPT), n.Address(), variant, exID(ex), vpHostile, note),
 	}
 }
@@ -364,6 +514,7 @@ func asSignFact(st Step) Step {
 	// without the expels at hand the box cannot judge them: still the same
 	// member/key rule
 	st.Ballot = nil
+	st.VPHostile = ""
 	st.Desc = "signfact of: " + st.Desc
 	return st
 }
@@ -398,7 +549,13 @@ func (g *Gen) noise(c stageCtx) {
 		}
 		return base.NewStagePoint(c.p, st)
 	}()
-	switch k := r.Intn(14); k {
+	kinds := 14
+	if g.O.Replay > 0 {
+		kinds = 16
+	}
+	switch k := r.Intn(kinds); k {
+	case 14, 15: // (scripts with ID replay only)
+		g.ahead(c)
 	case 0:
 		g.add(Step{Op: "count", Desc: "count"})
 	case 1: // outsider votes
@@ -466,7 +623,7 @@ func (g *Gen) noise(c stageCtx) {
 		}
 	case 9: // hostile embedded voteproof on an otherwise honest ballot
 		m, _ := g.anyMember(h)
-		g.add(g.voteStep(c, m, "A", []string{"few", "outsider", "imposter", "lowth", "otherheight", "nextsuf"}[r.Intn(6)], "hostile-vp", true))
+		g.add(g.voteStep(c, m, "A", g.withReplay(g.hostileKind(hostileKinds)), "hostile-vp", true))
 	case 10:
 		if g.O.Missing {
 			g.add(Step{Op: "missing", SP: sp, Desc: fmt.Sprintf("missingnodes %s", sp)})
@@ -493,6 +650,44 @@ func (g *Gen) noise(c stageCtx) {
 	}
 }
 
+// ahead adds the ballot of a genuine suffrage member for a stage point ahead of
+// the current one (the ACCEPT stage of the current point, the next round, the
+// next height). The voteproof it carries is for the stage right before that
+// point, hence newer than whatever the box has finished; it is invalid for the
+// true suffrage and carries the ID of an honest voteproof of the script.
+func (g *Gen) ahead(c stageCtx) {
+	r := g.R
+	h := c.p.Height()
+	var fc stageCtx
+	switch k := r.Intn(3); {
+	case k == 0 && c.stage != "accept":
+		fc = stageCtx{stage: "accept", p: c.p, ex: c.ex}
+	case k == 1:
+		fc = stageCtx{stage: "init", p: c.p.NextRound()}
+	default:
+		g.acceptRound[h] = c.p.Round()
+		fc = stageCtx{stage: "init", p: base.NewPoint(h+1, 0)}
+	}
+	m, _ := g.anyMember(fc.p.Height())
+	kind := g.hostileKind([]string{"few", "outsider", "imposter", "nextsuf"})
+	src := replaySources[r.Intn(len(replaySources))]
+	g.add(g.voteStep(fc, m, "A", kind+"@"+src, "ahead", true))
+	if r.Intn(2) == 0 {
+		g.add(Step{Op: "count", Desc: "count"})
+	}
+}
+
+// stageOrMiss is stage, unless the box misses the stage altogether (Skip).
+func (g *Gen) stageOrMiss(c stageCtx, draw bool) {
+	if g.O.Skip > 0 && g.R.Float64() < g.O.Skip {
+		g.add(Step{Op: "count", Desc: fmt.Sprintf("count (the box misses stage %s of %s: none of its ballots is delivered)", c.stage, c.p)})
+		g.past = append(g.past, c)
+		g.Skipped++
+		return
+	}
+	g.stage(c, draw)
+}
+
 // stage emits the votes of one stage of one round.
 func (g *Gen) stage(c stageCtx, draw bool) {
 	w := g.W
@@ -517,6 +712,14 @@ func (g *Gen) stage(c stageCtx, draw bool) {
 		dissent = r.Intn(len(voters))
 	}
 	held := g.hiddenFor != 0 && g.hiddenFor == c.p.Height()
+	// (scripts with replay) in some expel stages every voter's ballot comes with
+	// a twin: another ballot of the same node which lists the same expel facts
+	// but carries operations with other node signs - after the regular ballot
+	// (a second ballot of a node that has voted) or before it
+	var twinEx *ExpelSpec
+	if g.O.Replay > 0 && c.ex != nil && c.stage != "sc" && r.Intn(3) == 0 {
+		twinEx = g.resigned(c.ex, []string{"outsider", "outsider", "under"}[r.Intn(3)])
+	}
 	for seq, i := range order {
 		if held && (i == absent || r.Intn(4) == 0) {
 			// while the suffrage is unknown the box can only hold what arrives:
@@ -546,9 +749,26 @@ func (g *Gen) stage(c stageCtx, draw bool) {
 		if c.stage != "sc" && vc.ex == nil && r.Intn(8) == 0 {
 			st = asSignFact(st)
 		}
-		g.add(st)
+		if twinEx != nil && vc.ex != nil {
+			tc := vc
+			tc.ex = twinEx
+			if r.Intn(4) == 0 {
+				// the very same sign fact first arrives with the re-signed operations
+				g.add(g.voteStep(tc, n, variant, "", "twin-first:same-expel-facts-other-signs", false))
+				g.add(st)
+			} else {
+				g.add(st)
+				g.add(g.voteStep(tc, n, []string{"C", variant}[r.Intn(2)], "", "twin-second:same-expel-facts-other-signs", false))
+			}
+		} else {
+			g.add(st)
+		}
 		if r.Intn(6) == 0 { // conflicting ballot of the same node
-			g.add(g.voteStep(vc, n, "C", "", "conflict", true))
+			cc := vc
+			if g.O.Replay > 0 && vc.ex != nil && c.stage != "sc" && r.Intn(2) == 0 {
+				cc.ex = g.resigned(vc.ex, []string{"outsider", "under"}[r.Intn(2)])
+			}
+			g.add(g.voteStep(cc, n, "C", "", "conflict", true))
 		}
 		if len(expelled) > 0 && r.Intn(2) == 0 {
 			e := expelled[0]
@@ -672,7 +892,7 @@ func (g *Gen) Flow() []Step {
 			draw := round < 2 && r.Float64() < g.O.DrawProb
 			drawAt := r.Intn(2) // 0: INIT draws, 1: ACCEPT draws
 
-			g.stage(stageCtx{stage: "init", p: p, ex: ex}, draw && drawAt == 0)
+			g.stageOrMiss(stageCtx{stage: "init", p: p, ex: ex}, draw && drawAt == 0)
 			if deferred && r.Intn(2) == 0 {
 				g.add(Step{Op: "reveal", Height: h - 1, Desc: fmt.Sprintf("reveal suffrage of height %d", h-1)})
 				g.add(Step{Op: "count", Desc: "count"})
@@ -681,9 +901,9 @@ func (g *Gen) Flow() []Step {
 			}
 			if !(draw && drawAt == 0) {
 				if ex != nil {
-					g.stage(stageCtx{stage: "sc", p: p, ex: ex}, false)
+					g.stageOrMiss(stageCtx{stage: "sc", p: p, ex: ex}, false)
 				}
-				g.stage(stageCtx{stage: "accept", p: p, ex: ex}, draw && drawAt == 1)
+				g.stageOrMiss(stageCtx{stage: "accept", p: p, ex: ex}, draw && drawAt == 1)
 			}
 			if deferred {
 				g.add(Step{Op: "reveal", Height: h - 1, Desc: fmt.Sprintf("reveal suffrage of height %d", h-1)})
@@ -823,6 +1043,21 @@ func (g *Gen) DirectedSignFactBy(n base.LocalNode, p base.Point, variant string)
 	g.add(asSignFact(g.initBallot(n, p, variant, nil, "", "directed", false)))
 	if len(g.Steps) == before {
 		return Step{Op: "count", Desc: "count (directed sign fact was invalid)"}
+	}
+	st := g.Steps[len(g.Steps)-1]
+	g.Steps = g.Steps[:before]
+	return st
+}
+
+// DirectedBallot builds one ballot of stage "init", "sc" or "accept" for a
+// directed case: signer n, embedded voteproof of kind vpHostile ("" = honest,
+// "<kind>@<id source>" = hostile with a replayed ID). The honest voteproofs of
+// earlier DirectedBallot calls of this Gen count as "seen".
+func (g *Gen) DirectedBallot(stage string, n base.LocalNode, p base.Point, variant string, ex *ExpelSpec, vpHostile string) Step {
+	before := len(g.Steps)
+	g.add(g.voteStep(stageCtx{stage: stage, p: p, ex: ex}, n, variant, vpHostile, "directed", true))
+	if len(g.Steps) == before {
+		return Step{Op: "count", Desc: "count (directed ballot was invalid)"}
 	}
 	st := g.Steps[len(g.Steps)-1]
 	g.Steps = g.Steps[:before]
